@@ -813,13 +813,15 @@ var rR13 = RuleRef{Name: "R13", Doc: "reply-kind provenance: line-framed reply c
 			for _, in := range b.Instrs {
 				switch x := in.(type) {
 				case *ssa.Call:
-					if cf := callee(x); cf != nil && cf.Pkg != nil && cf.Pkg.Pkg.Path() == "strconv" && (cf.Name() == "Itoa" || cf.Name() == "FormatInt") {
-						arg := x.Call.Args[0]
-						if cv, ok := arg.(*ssa.Convert); ok {
-							arg = cv.X
-						}
-						if ln, ok := isBuiltinCall(arg, "len"); ok && canon(ln.Call.Args[0]) == "recv.data" {
-							hdr = true
+					if cf := callee(x); cf != nil && cf.Pkg != nil && cf.Pkg.Pkg.Path() == "strconv" {
+						// Itoa/FormatInt(n), AppendInt(buf, n, 10)
+						for _, arg := range x.Call.Args {
+							if cv, ok := arg.(*ssa.Convert); ok {
+								arg = cv.X
+							}
+							if ln, ok := isBuiltinCall(arg, "len"); ok && canon(ln.Call.Args[0]) == "recv.data" {
+								hdr = true
+							}
 						}
 					}
 					if x.Call.IsInvoke() && x.Call.Method.Name() == "ToBytes" {
